@@ -29,6 +29,24 @@ pub fn soup(r: &mut Rng, n: usize) -> String {
 /// reader fails on the same event stream (a `Text` event inside a top-level HTML block), D9 only when some list item
 /// starts with a code block, quote, table or rule
 fn site_finding(model: &mut Model, text: &str, msg: &str) -> Option<&'static str> {
+    // the model decides first, whatever the panic message says (a reworded `panic!` is not a new defect): the model
+    // reader fails on the real parser's events = finding D21; the model's section builder answers `sectionBlock` on
+    // the real reader's blocks = finding D9; the model builds the note = not a known panic
+    if let Some(c) = crate::events::compare_reader(model, text) {
+        if c.model_error && c.grammar != "complete" {
+            return Some("D21");
+        }
+    }
+    let h = hist::History { ext: String::new(), import: vec![("n".to_string(), text.to_string())], steps: vec![] };
+    if let Some(reply) = hist::model_reply_parts(model, &h, &["keys"]) {
+        if reply.contains("sectionBlock") {
+            return Some("D9");
+        }
+        if !reply.contains("unmodelled") && !reply.contains("(error") {
+            return None;
+        }
+    }
+    // outside the modelled fragment: panic site and input feature
     if msg.contains("section block panic") {
         let item_starts_with_block = text.lines().any(|l| {
             let t = l.trim_start().trim_start_matches(|c| c == '>' || c == ' ');
